@@ -37,7 +37,7 @@ m = dict(
     engines=[
         dict(name="vmon", path="/verif/harness", serves_properties=sorted(p for p in PROPS if MANIFEST_TEXT[p].get("engine", "vmon") == "vmon"),
              kind_free_text="Rust monitor core + one workload binary per property: runs the real ruint code under catch_unwind on hostile inputs, judges every outcome with an independent BigUint/reference-codec oracle, checks the canonical-form invariant on every produced value, attributes coverage-hook hits to calls; lanes = debug-assertion build, release build, Miri, AddressSanitizer, valgrind memcheck"),
-        dict(name="probes", path="/verif/probes", serves_properties=sorted(p for p in PROPS if MANIFEST_TEXT[p].get("engine") == "probes" or MANIFEST_TEXT[p].get("also_probes")),
+        dict(name="probes", path="/verif/lib/probes.py", serves_properties=sorted(p for p in PROPS if MANIFEST_TEXT[p].get("engine") == "probes" or MANIFEST_TEXT[p].get("also_probes")),
              kind_free_text="generated probe crates compiled against /repo's working tree; compiler diagnostics (JSON) and program output are the observed events"),
     ],
     checks=checks,
